@@ -376,7 +376,7 @@ def cleanup_fn(F):
 COLL = re.compile(r"std::collections::|std::vec::Vec<")
 
 
-def rule_cleanup(F, R, which=("G1", "G2", "G3", "O1")):
+def rule_cleanup(F, R, which=("G1", "G2", "G3", "G4", "O1")):
     b = cleanup_fn(F)
     if b is None:
         R.missing("G", "the function reachable from the object-store add_version that deletes objects in a loop (cleanup)")
@@ -583,6 +583,21 @@ def rule_cleanup(F, R, which=("G1", "G2", "G3", "O1")):
                 R.violation("G3", subj, "age-del-unguarded", "the age-based pass deletes versions without the `creation < threshold` selection", where(b, d["bb"]))
             else:
                 R.ok("G3", "age selection is creation < threshold", where(b, d["bb"]))
+
+
+    # ---- G4 ---------------------------------------------------------------------------
+    if "G4" in which:
+        R.begin("G4", "order of the two destructive phases: the superseded snapshots are deleted before any version is deleted by age. While an older snapshot is still offered, the versions that lead from it to the head must exist; a cleanup that stops between its deletions (its errors are ignored by add_version) must not leave a snapshot whose successors are gone")
+        snapdels = [d for d in info if _is_snapshot_del(d, c, fl, F)]
+        aged = [d for d in info if _is_age_pass(d) and _is_version_listing_del(d, c, fl, F)]
+        if snapdels and aged:
+            bad = [(a, s) for a in aged for s in snapdels if s["bb"] in c.reachable_after(a["bb"])]
+            if bad:
+                R.violation("G4", subj, "versions-deleted-before-snapshots", "a snapshot deletion (%s) can still follow the age-based deletion of versions (%s): interrupted in between, the older snapshot remains while the versions after it are gone, and a replica started from it never reaches the head" % (loc(c.term(bad[0][1]["bb"])["sp"]), loc(c.term(bad[0][0]["bb"])["sp"])), where(b, bad[0][0]["bb"]))
+            else:
+                R.ok("G4", "snapshot deletions precede the age-based version deletions", where(b, aged[0]["bb"]))
+        else:
+            R.missing("G4", "snapshot deletion / age-based deletion sites in cleanup")
 
 
 def is_opt_discr(c, fl, s):
